@@ -7,6 +7,7 @@ import (
 	"fmt"
 	"io/ioutil"
 	"os"
+	"os/exec"
 	"path/filepath"
 	"sort"
 	"strings"
@@ -174,6 +175,45 @@ func cmdCacheDoc(args []tok) string {
 	return "T:" + dg + " | " + c.history(hist)
 }
 
+// otherProcess runs `cachedoc <proto> <file contents> D NONE H <history>` in a fresh process of this harness
+func otherProcess(proto, path string, hist []tok) string {
+	file, err := ioutil.ReadFile(path)
+	if err != nil {
+		return "XPROC-NOFILE"
+	}
+	var sb strings.Builder
+	sb.WriteString("cachedoc " + proto + " x" + hex.EncodeToString(file) + " D NONE H")
+	for _, t := range hist {
+		switch t.kind {
+		case 'b':
+			sb.WriteString(" x" + hex.EncodeToString(t.b))
+		case 'i':
+			sb.WriteString(fmt.Sprintf(" %d", t.i))
+		default:
+			sb.WriteString(" " + t.s)
+		}
+	}
+	sb.WriteString("\n")
+	cmd := exec.Command(os.Args[0])
+	cmd.Stdin = strings.NewReader(sb.String())
+	cmd.Env = os.Environ()
+	done := make(chan struct{})
+	var out []byte
+	go func() { out, err = cmd.Output(); close(done) }()
+	select {
+	case <-done:
+	case <-time.After(60 * time.Second):
+		if cmd.Process != nil {
+			cmd.Process.Kill()
+		}
+		return "XPROC-HANG"
+	}
+	if err != nil {
+		return "XPROC-CRASH"
+	}
+	return strings.TrimRight(string(out), "\r\n")
+}
+
 // cachert <proto> <mode> S <setup history> H <history>
 //   decodes S on a fresh cache, Dumps it with the real Dump, then
 //   mode FULL: loads the file back and decodes H with the loaded cache
@@ -240,8 +280,12 @@ func cmdCacheRT(args []tok) string {
 	if mode == "FULL" {
 		var c flowCache
 		c.load(proto, path)
+		main := "T:" + cacheDigest(proto, c.dump) + " | " + c.history(hist)
+		// XPROC: the restart for real: ANOTHER process loads the saved file and decodes H (what is derived per process - a hash
+		// seed, an init-time table - is not the same there)
+		xproc := otherProcess(proto, path, hist)
 		// REF: the collector that never restarted (c0 is still that collector)
-		return "T:" + cacheDigest(proto, c.dump) + " | " + c.history(hist) + " || REF T:" + cacheDigest(proto, c0.dump) + " | " + c0.history(hist)
+		return main + " || XPROC " + xproc + " || REF T:" + cacheDigest(proto, c0.dump) + " | " + c0.history(hist)
 	}
 	file, _ := ioutil.ReadFile(path)
 	var fresh flowCache
